@@ -468,6 +468,9 @@ func dischargeAll(jobs []*obJob, timeoutMs int, workers int, scratch string) {
 					r = r2
 				}
 				o.Verdict, o.Solver, o.Ms, o.Model, o.Outputs = r.verdict, r.solver, r.ms, r.output, r.outputs
+				if os.Getenv("GVC_PROGRESS") != "" && (o.Verdict != "unsat" || o.Ms > 2000) {
+					fmt.Fprintf(os.Stderr, "progress: %s %s %dms\n", o.Verdict, o.Name, o.Ms)
+				}
 				if !o.MustSat && o.Verdict != "unsat" && o.Verdict != "sat" && len(j.values) > 0 && !hasQuant(o.Goal) {
 					// candidate counterexample from the quantifier-free part of the assumptions
 					script := j.v.scriptOpt(o, j.values, true, true)
